@@ -355,6 +355,10 @@ class Interp:
         v = self.vars.get(name)
         if key is not None:
             if isinstance(v, dict):
+                if key not in v and key in ("True", "False"):
+                    # docs/variables.md: "If you request a variable with a boolean tracking value that looks like @empty.True, the
+                    # value will nevertheless be found" (count()/every() keep their bookkeeping under real bools)
+                    return v.get(key == "True")
                 return v.get(key)
             return None
         return v
@@ -723,14 +727,18 @@ class Interp:
         return rx.fullmatch(v) is not None
 
     # docs/functions/all.md: "True if all of the values ... contain data"; present = not None and not empty after trimming
+    # docs/functions/all.md: all() "True if all headers contain data"; "the number of headers and row columns must be equal. All of
+    # the headers must have values in the current row"; present = not the empty string after trimming and not None
     def m_all(self, n, q, a):
-        if not a:
-            raise Unmodelled("all() without arguments")
+        if "onmatch" in q:
+            raise Unspecified("all.onmatch")
+        if not a or (len(a) == 1 and a[0][0] == "f" and a[0][1] == "headers"):
+            return len(self.row) == len(self.headers) and all(not is_none(c) for c in self.row)
+        if len(a) == 1 and a[0][0] == "f" and a[0][1] == "variables":
+            return all(not is_none(v) for v in self.vars.values())
         return all(not is_none(self.value(x)) for x in a)
 
     def m_missing(self, n, q, a):
-        if not a:
-            raise Unmodelled("missing() without arguments")
         return not self.m_all(n, q, a)
 
     # strings (docs/functions/string_functions.md)
